@@ -36,13 +36,20 @@ def known_ids(run):
 def step(run, job):
     kind, n = job
     name = '%s/n%d' % (kind, n)
-    env = SS.StepEnv(run, n, 'alpha_beta' if kind == 'AB' else 'root', ply_concrete=(0 if kind == 'R' else None), abortable=True, limits=sym_limits())
+    env = SS.StepEnv(run, n, {'AB': 'alpha_beta', 'R': 'root', 'Q': 'quiescence'}[kind], ply_concrete=(0 if kind == 'R' else None), abortable=True, limits=sym_limits())
     ex = env.ex
     st = State()
     sp = ex.alloc(st, env.search_value(st))
     depth = z3.BitVec('depth', 8)
-    ex.assume(z3.And(z3.UGE(depth, 1), z3.ULE(depth, 250)))
-    if kind == 'AB':
+    # alpha_beta is also entered with depth 0 (it then drops into quiescence, whose cut is reported through the same ghost)
+    ex.assume(z3.ULE(depth, 250) if kind == 'AB' else z3.And(z3.UGE(depth, 1), z3.ULE(depth, 250)))
+    if kind == 'Q':
+        alpha, beta = z3.Int('alpha'), z3.Int('beta')
+        for c in [alpha >= MIN16 + 1, beta <= MAX16, alpha < beta]:
+            ex.assume(c)
+        r = ex.call(env.item('quiescence'), [sp, ex.alloc(st, ()), alpha, beta, ('instant',)],
+                    ['&mut search::Search', '&evaluate::simple_evaluator::SimpleEvaluator', 'i16', 'i16', 'std::time::Instant'], 'i16', st, 'harness')
+    elif kind == 'AB':
         alpha, beta = z3.Int('alpha'), z3.Int('beta')
         for c in [alpha >= MIN16 + 1, beta <= MAX16, alpha < beta]:
             ex.assume(c)
@@ -62,7 +69,7 @@ def step(run, job):
         if q.verdict == 'sat':
             cut = [c for c in env.calls if 'aborted' in c and z3.is_true(q.model.eval(z3.And(zb(c['guard']), c['aborted']), model_completion=True))]
             what = ('after a nested search was cut short (%d of %d nested calls aborted, returning the dummy score 0), %s still writes a cache entry '
-                    'for the node (site %s)' % (len(cut), len(env.calls), 'alpha_beta' if kind == 'AB' else 'alpha_beta_start', site))
+                    'for the node (site %s)' % (len(cut), len(env.calls), {'AB': 'alpha_beta', 'R': 'alpha_beta_start', 'Q': 'quiescence'}[kind], site))
             if 'S8' in known and kind == 'AB':
                 run.known_finding('S8 alpha_beta stores a transposition-table entry although a child search was aborted (site %s)' % site)
             else:
@@ -70,7 +77,7 @@ def step(run, job):
     for ob, qq in run.check_obligations(ex, name):
         report(run, qq, name, 'panic reachable when the search is cut: %s %s' % (ob.where.split('::')[-1], ob.msg[:80]))
     # vacuity: some insert is reachable at all, and some nested abort is possible
-    if ins:
+    if ins and kind != 'Q':
         qv = run.decide('%s/vacuity' % name, ex.pre + [z3.Or(*[zb(i['guard']) for i in ins])], kind='smt')
         run.queries.pop()
         run.vacuity.append({'case': name, 'insert_reachable': qv.verdict})
@@ -90,9 +97,9 @@ def check(run, replay=None):
         return
     run.extra['explanation'] = __doc__
     N = 2 if run.tier == 'quick' else 3
-    jobs = [('AB', n) for n in range(1, N + 1)] + [('R', n) for n in range(1, N + 1)]
+    jobs = [('AB', n) for n in range(1, N + 1)] + [('R', n) for n in range(1, N + 1)] + [('Q', n) for n in range(1, N + 1)]
     run.bounds.append('nodes with 1..%d pseudo-legal moves; any depth, window, ply; every combination of cut points (free Booleans per poll and per nested call); arbitrary limits' % N)
-    run.outside += ['quiescence writes nothing to the cache (checked structurally: no insert site)', 'nodes with more moves',
+    run.outside += ['nodes with more moves',
                     'the effect of a bad entry on later searches (the property is about the write itself)']
     run.stubs |= {'one-level abstract game', 'nested calls: window contract or abort (returns 0, sticky)', 'running flag may be cleared at any poll',
                   'limits fully symbolic', 'clock free', 'cache probe returns None; inserts observed'}
